@@ -14,6 +14,7 @@ import (
 	"testing"
 
 	"github.com/cloudflare/circl/dh/csidh"
+	"github.com/cloudflare/circl/group"
 	"github.com/cloudflare/circl/kem/frodo/frodo640shake"
 	"github.com/cloudflare/circl/kem/kyber/kyber768"
 	"github.com/cloudflare/circl/kem/mlkem/mlkem768"
@@ -27,6 +28,7 @@ import (
 	"github.com/cloudflare/circl/sign/mldsa/mldsa65"
 	signschemes "github.com/cloudflare/circl/sign/schemes"
 	tssrsa "github.com/cloudflare/circl/tss/rsa"
+	"github.com/cloudflare/circl/zk/dleq"
 	"github.com/cloudflare/circl/zz_verif/vlib"
 	"pgregory.net/rapid"
 )
@@ -102,6 +104,50 @@ func reuseTable() []reuse {
 				dec:     func(o any, b []byte) error { return o.(*oprf.PublicKey).UnmarshalBinary(s, b) },
 				observe: func(o any) string { return fmt.Sprintf("pk=%x", mb(o.(*oprf.PublicKey).MarshalBinary())) }},
 		)
+	}
+	// ---- DLEQ proofs: one Proof object reused for proofs over different groups
+	{
+		type stmt struct {
+			g            group.Group
+			a, ka, b, kb group.Element
+			enc          []byte
+		}
+		var st []stmt
+		for gi, g := range []group.Group{group.P256, group.P384, group.P521, group.Ristretto255} {
+			k := g.HashToScalar([]byte("k"), []byte{byte(gi)})
+			a := g.Generator()
+			ka := g.NewElement().Mul(a, k)
+			b := g.HashToElement([]byte("b"), []byte{byte(gi)})
+			kb := g.NewElement().Mul(b, k)
+			pr, err := dleq.Prover{Params: dleq.Params{G: g, H: crypto.SHA256, DST: []byte("c11")}}.ProveWithRandomness(k, a, ka, b, kb, g.HashToScalar([]byte("r"), []byte{byte(gi)}))
+			if err != nil {
+				panic(err)
+			}
+			st = append(st, stmt{g, a, ka, b, kb, append([]byte{byte(gi)}, mb(pr.MarshalBinary())...)})
+		}
+		type dleqObj struct {
+			p   dleq.Proof
+			gid int
+		}
+		tab = append(tab, reuse{name: "dleq.Proof(across-groups)", n: len(st), enc: func(i int) []byte { return st[i].enc },
+			newObj: func() any { return &dleqObj{} },
+			dec: func(o any, b []byte) error {
+				d := o.(*dleqObj)
+				d.gid = int(b[0])
+				return d.p.UnmarshalBinary(st[d.gid].g, b[1:])
+			},
+			observe: func(o any) string {
+				d := o.(*dleqObj)
+				s := st[d.gid]
+				out := ""
+				if p, _ := vlib.Catch(func() {
+					ok := dleq.Verifier{Params: dleq.Params{G: s.g, H: crypto.SHA256, DST: []byte("c11")}}.Verify(s.a, s.ka, s.b, s.kb, &d.p)
+					out = fmt.Sprintf("verify=%v bytes=%x", ok, mb(d.p.MarshalBinary()))
+				}); p != nil {
+					out = fmt.Sprintf("panic: %v", p)
+				}
+				return out
+			}})
 	}
 	// ---- BLS keys
 	{
